@@ -136,6 +136,28 @@ def handle : Handler := fun op a => do
                  ("ok_table", .bool (reproduces auto orig cmd)),
                  ("ok_wire", .bool (reproducesOnWire c orig cmd)),
                  ("ok", .bool (reproduces auto orig cmd && reproducesOnWire c orig cmd))]
+  | "formdecode" => return .arr ((← asList asChars (← field a "ss")).map fun s => .arr ((formDecode s).map jnat))
+  | "sanitize" =>
+    -- the code model of sanitize_value on flat mappings
+    let cfg : SanConfig := ⟨← asList asChars (← field a "keys"), ← asList asChars (← field a "markers"),
+                            ← asChars (← field a "replacement")⟩
+    return .arr ((← asList (asPairs asChars asChars) (← field a "hss")).map fun hs => encPairs (sanitizeFlat cfg hs))
+  | "judgeredacted" =>
+    -- the specification alone, sanitization enabled: the command against the original, up to redacted values
+    let c ← decClients (← field a "clients")
+    let ms ← asList asChars (← field a "markers")
+    let o ← field a "orig"
+    let orig : Original := ⟨← asChars (← field o "method"), ← asChars (← field o "url"),
+                            ← asPairs asChars asChars (← field o "headers"), ← asOpt asChars (optField o "body"),
+                            ← asBool (← field o "verify")⟩
+    let cmd ← asChars (← field a "cmd")
+    let parsed := shParse cmd
+    let auto := specAuto c orig
+    return jobj [("argv", encOptWords parsed),
+                 ("sem", match parsed with | some v => encResult (curlSem v) | none => .null),
+                 ("auto", encTable auto),
+                 ("ok", .bool (reproducesRedacted ms auto orig cmd)),
+                 ("ok_plain", .bool (reproduces auto orig cmd))]
   | "history" =>
     -- the code model: the recorder after the history (the sample of a failed check is the data selected for it)
     let ops ← asList decOp (← field a "ops")
